@@ -418,7 +418,9 @@ func oidOf(dotted string) asn1.ObjectIdentifier {
 }
 
 func checkTampered(rt *rapid.T, p *persona.Persona, c *document.DocumentEx, mech, fname, mname string, rep map[string]any, before, after []byte) {
-	evid.Case("tamper/"+fname+"/"+mname, true, fmt.Sprintf("%s/%s/%x/%x", fname, mname, before, after), nil)
+	evid.CaseFn("tamper/"+fname+"/"+mname, true, fmt.Sprintf("%s/%s/%x/%x", fname, mname, before, after), func() any {
+		return map[string]any{"mechanism": mech, "field": fname, "mutation": mname, "before": evid.Hex(before), "after": evid.Hex(after), "session": rep}
+	})
 	r2 := map[string]any{"field": fname, "mutation": mname, "before": hex.EncodeToString(before), "after": hex.EncodeToString(after)}
 	for k, v := range rep {
 		r2[k] = v
@@ -463,7 +465,9 @@ func checkFileTampered(rt *rapid.T, p *persona.Persona, ex *document.DocumentEx,
 		return
 	}
 	c.Document = doc
-	evid.Case("tamper-file/"+name, true, fmt.Sprintf("%s/%d/%x", name, pos, mut[pos]), nil)
+	evid.CaseFn("tamper-file/"+name, true, fmt.Sprintf("%s/%d/%x", name, pos, mut[pos]), func() any {
+		return map[string]any{"file": name, "file_len": len(mut), "position": pos, "new_octet": mut[pos], "mutated_file": evid.Hex(mut)}
+	})
 	off, err := offline(p, &c)
 	if err != nil {
 		return
